@@ -1,2 +1,51 @@
-From Astisub Require Import Kit.Base.
-Theorem C06_placeholder : True. Proof. exact I. Qed.
+(* C06 -- Teletext-in-TS decoding returns the transmitted subtitle pages and timing.
+   The model (Model/Ttx.v, Model/TtxRow.v) starts where the demuxer has delivered the PES payloads of the teletext
+   PID with their times; the tables it uses are regenerated from the code on every run (Gen/TtxTables.v).
+   (work in progress: see notes/C06.md for the list and meaning of the theorems) *)
+From Coq Require Import List ZArith NArith Bool.
+From Astisub Require Import Kit.Base Kit.Str Gen.TtxTables Model.TtxRow Model.Ttx Model.TtxSpec.
+From Astisub Require Import Proofs.TtxTables Proofs.TtxTotal.
+Import ListNotations.
+Open Scope N_scope.
+
+(* astikit's Hamming 8/4 table is, on every byte value, the nearest-code-word decoder of ETS 300 706: single bit
+   errors corrected, double errors rejected *)
+Theorem C06_hamming_table : forall b, ham84 b = ham84_dec b.
+Proof. exact ham84_is_spec. Qed.
+Print Assumptions C06_hamming_table.
+Theorem C06_hamming_roundtrip : forall n, n < 16 -> ham84 (ham84_enc n) = Some n.
+Proof. exact ham84_dec_enc. Qed.
+Print Assumptions C06_hamming_roundtrip.
+Theorem C06_hamming_single_error : forall n k, n < 16 -> k < 8 -> ham84 (N.lxor (ham84_enc n) (2 ^ k)) = Some n.
+Proof. exact ham84_single_error. Qed.
+Print Assumptions C06_hamming_single_error.
+Theorem C06_hamming_double_error : forall n j k, n < 16 -> j < 8 -> k < 8 -> j <> k ->
+  ham84 (N.lxor (N.lxor (ham84_enc n) (2 ^ j)) (2 ^ k)) = None.
+Proof. exact ham84_double_error. Qed.
+Print Assumptions C06_hamming_double_error.
+
+(* bit order and parity: the stored cell of a transmitted byte is its seven-bit character when the byte, read least
+   significant bit first, has odd parity, and 0 (no text) otherwise *)
+Theorem C06_reverse8_involutive : forall b, b < 256 -> rev8 (rev8 b) = b.
+Proof. exact rev8_involutive. Qed.
+Print Assumptions C06_reverse8_involutive.
+Theorem C06_cell_table : forall x, ttx_cell x = cell0 x.
+Proof. exact cell_is_spec. Qed.
+Print Assumptions C06_cell_table.
+Theorem C06_cell_roundtrip : forall c, c < 128 -> ttx_cell (par_enc c) = c.
+Proof. exact cell_par_enc. Qed.
+Print Assumptions C06_cell_roundtrip.
+Theorem C06_cell_bad_parity : forall x, x < 256 -> N.odd (ones8 x) = false -> ttx_cell x = 0.
+Proof. exact cell_bad_parity. Qed.
+Print Assumptions C06_cell_bad_parity.
+
+(* national option substitution: for every entry of teletextCharsets the active table is the entry's G0 set with
+   exactly the 13 national positions replaced (the other 83 untouched), or the G0 set itself *)
+Theorem C06_national_substitution : forallb entry_subst_ok ttx_charsets = true.
+Proof. exact national_substitution_exact. Qed.
+Print Assumptions C06_national_substitution.
+
+(* totality: whatever is delivered (arbitrary byte values, lengths, times, page option) the reader returns cues *)
+Theorem C06_total : forall page ds site, ttx_feed page ds <> Panic site.
+Proof. exact ttx_feed_no_panic. Qed.
+Print Assumptions C06_total.
